@@ -351,3 +351,86 @@ Example C08_kexp_from_krylov_nonvacuous :
    && keqb CQ (site_dot lk_A (apply_local_hamiltonian lk_E lk_E lk_W lk_A)) (qq (-7) 1, qq 0 1)
    && negb (keqb CQ (get (sel A' 0) 0 0) (get (sel lk_A 0) 0 0)) && Nat.eqb (length A') 2) = true.
 Proof. split; [exact lk_kexp_ok|vm_compute; reflexivity]. Qed.
+
+(* ---------------------------------------------------------------------------------------------------------------
+   LINK, TWO-SITE (continuation of the linking round; lemmas in Proofs/Link2Ctx.v, Proofs/Link2RunTDVP.v).  The statement
+   recorded above as NOT DONE is proved below as C08_tdvp2_conserves_lapack: the abstract solver argument of tdvp_twosite is
+   instantiated by the SAME concrete solver kexp_lanczos = _local_hamiltonian_step for both kinds of local problem the
+   integrator issues, the merged two-site step (physical dimension d*d, merged MPO tensor [Hm Hs i] as the code forms it) and
+   the backward one-site step. *)
+From PT Require Import Proofs.OperationChains Proofs.SweepsInv Proofs.Link2Ctx Proofs.Link2RunTDVP.
+
+(* the two-site analogue of C04_heff_hermitian: for a Hermitian operator the merged two-site effective operator (bra and ket
+   sharing the environment) is self-adjoint w.r.t. site_dot on tensors of the merged shape (from C04_two_site_is_projection) *)
+Theorem C08_heff2_hermitian : forall (R : cring) (Al Ar : list (site R)) (Wl Wr : list (osite R)) (X Y : site R) (W0 W1 : osite R)
+    dsl dsr d0 d1 Dal Dar Dwl Dwm Dwr DsAl DsWl DsAr DsWr,
+  chainx_ok dsl DsAl Al -> ochainx_ok dsl DsWl Wl ->
+  hd 0%nat DsAl = 1%nat -> hd 0%nat DsWl = 1%nat ->
+  last DsAl 0%nat = Dal -> last DsWl 0%nat = Dwl ->
+  (0 < d0)%nat -> (0 < d1)%nat -> (0 < Dwr)%nat ->
+  site_ok (d0 * d1) Dal Dar X -> site_ok (d0 * d1) Dal Dar Y ->
+  osite_struct d0 W0 -> osite_struct d1 W1 -> osite_ok d0 Dwl Dwm W0 -> osite_ok d1 Dwm Dwr W1 ->
+  chain_ok dsr (Dar :: DsAr) Ar -> ochain_ok dsr (Dwr :: DsWr) Wr ->
+  (forall w w', In w (gwords (dsl ++ d0 :: d1 :: dsr)) -> In w' (gwords (dsl ++ d0 :: d1 :: dsr)) ->
+     opamp (Wl ++ W0 :: W1 :: Wr) w w' = kconj R (opamp (Wl ++ W0 :: W1 :: Wr) w' w)) ->
+  site_dot Y (apply_local_hamiltonian (lfold Al Al Wl env_one) (rfold Ar Ar Wr env_one) (c04_merge_osite W0 W1) X) =
+  kconj R (site_dot X (apply_local_hamiltonian (lfold Al Al Wl env_one) (rfold Ar Ar Wr env_one) (c04_merge_osite W0 W1) Y)).
+Proof. exact heff2_hermitian. Qed.
+Print Assumptions C08_heff2_hermitian.
+
+(* at every state satisfying the two-site invariant Z2 (sites < i left-isometric, sites > i+1 right-isometric, blocks =
+   contractions of those sites) the MERGED local problem at the pair (i, i+1) has consistent shapes (physical dimension d*d),
+   its start tensor carries the norm of the state, and for a Hermitian MPO its effective Hamiltonian is self-adjoint ([local_sa]) *)
+Theorem C08_two_site_invariant_gives_local_problem : forall (F : ofield) (Hs : list (osite (Cx F))) d DsW,
+  (0 < d)%nat -> ochain_ok (repeat d (length Hs)) DsW Hs -> hd 0%nat DsW = 1%nat -> Forall (osite_struct d) Hs ->
+  forall (st : sw (Cx F)) i, Z2 (Cx F) Hs d st i ->
+  let M := c04_merge_site (gA st i) (gA st (S i)) in
+  exists Dl Dr Dwl Dwr, (0 < Dwl)%nat /\ (0 < Dwr)%nat /\ osite_ok (d * d) Dwl Dwr (Hm Hs i) /\
+    env_ok Dwl Dl Dl (gBL st i) /\ env_ok Dwr Dr Dr (gBR st (S i)) /\ site_ok (d * d) Dl Dr M /\
+    SweepsInv.NN (Cx F) Hs d (s_A st) = site_dot M M /\
+    (mpo_herm F Hs d -> local_sa F (d * d) Dl Dr (apply_local_hamiltonian (gBL st i) (gBR st (S i)) (Hm Hs i))).
+Proof. exact Z2_local_ctx. Qed.
+Print Assumptions C08_two_site_invariant_gives_local_problem.
+
+(* per entry: a KH2 call issued at a state satisfying Z2 with norm one, whose oracle answers meet the Krylov contracts, meets
+   the conserving contract kexp_ok (d*d) of C08_tdvp2_conserves *)
+Theorem C08_kh2_entry_from_krylov : forall (F : ofield) dnorm small deigh dexp dexpm numiter (Hs : list (osite (Cx F))) d DsW,
+  (0 < d)%nat -> ochain_ok (repeat d (length Hs)) DsW Hs -> hd 0%nat DsW = 1%nat -> Forall (osite_struct d) Hs ->
+  mpo_herm F Hs d -> small_sound F small -> (1 <= numiter)%nat ->
+  forall (st : sw (Cx F)) i p t, Z2 (Cx F) Hs d st i -> SweepsInv.NN (Cx F) Hs d (s_A st) = k1 (Cx F) ->
+  let Am := c04_merge_site (gA st i) (gA st (S i)) in
+  kexp_lanczos_calls_ok F dnorm small deigh dexp numiter (gBL st i) (gBR st (S i)) (Hm Hs i) Am t ->
+  kexp_ok (d * d) (gBL st i) (gBR st (S i)) (Hm Hs i) Am
+    (kexp_lanczos F dnorm small deigh dexp dexpm numiter p (gBL st i) (gBR st (S i)) (Hm Hs i) Am t).
+Proof. exact kh2_entry_from_krylov. Qed.
+Print Assumptions C08_kh2_entry_from_krylov.
+
+(* along a run: the LAPACK-level contracts of the recorded calls ([lttr2_ok], Proofs/Link2RunTDVP.v: ltdvp2_call_ok —
+   kexp_lanczos_calls_ok for the one-site calls KH (MPO tensor of the site) and for the two-site calls KH2 (merged MPO tensor,
+   flattened length d*d*Dl*Dr); split_ok for SPLITL / SPLITR) imply the conserving-solver contracts of C08_tdvp2_conserves *)
+Theorem C08_tdvp2_lapack_to_conserving : forall (F : ofield) orth split dnorm small deigh dexp dexpm numiter (H : mpo (Cx F)) psi dt hdt n d DsW Ds0 A qD nrm tr,
+  tdvp_twosite orth split (kexp_lanczos F dnorm small deigh dexp dexpm numiter) H psi dt hdt n = Some (A, qD, nrm, tr) ->
+  mpo_shapeb d DsW (o_A H) = true -> mps_shapeb d Ds0 (m_A (fst (orth psi))) = true ->
+  Forall right_iso (m_A (fst (orth psi))) ->
+  mpo_herm F (o_A H) d -> small_sound F small -> (1 <= numiter)%nat ->
+  lttr2_ok split dnorm small deigh dexp numiter (o_A H) dt hdt d (rev tr) ->
+  ttr2_ok split (kexp_lanczos F dnorm small deigh dexp dexpm numiter) (o_A H) dt hdt d (rev tr).
+Proof. exact tdvp2_lapack_to_conserving. Qed.
+Print Assumptions C08_tdvp2_lapack_to_conserving.
+
+(* WHOLE RUN, two-site (tol_split = 0), END TO END: with the Krylov-based solver the only remaining hypotheses are LAPACK-level
+   contracts on the calls actually issued (numpy.linalg.norm, eigh_tridiagonal incl. the row-0 clause, unimodular numpy.exp at the
+   issued arguments, the breakdown test being sound), the exact-split contract on the split_mps_tensor calls (C08_split_contract_spec),
+   right-isometry of MPS.orthonormalize's answer, and Hermiticity of the MPO ([mpo_herm]).  Scalars: Cx F, F any ordered field. *)
+Theorem C08_tdvp2_conserves_lapack : forall (F : ofield) orth split dnorm small deigh dexp dexpm numiter (H : mpo (Cx F)) psi dt hdt n d DsW Ds0 A qD nrm tr,
+  tdvp_twosite orth split (kexp_lanczos F dnorm small deigh dexp dexpm numiter) H psi dt hdt n = Some (A, qD, nrm, tr) ->
+  mpo_shapeb d DsW (o_A H) = true -> mps_shapeb d Ds0 (m_A (fst (orth psi))) = true ->
+  Forall right_iso (m_A (fst (orth psi))) ->
+  mpo_herm F (o_A H) d -> small_sound F small -> (1 <= numiter)%nat ->
+  lttr2_ok split dnorm small deigh dexp numiter (o_A H) dt hdt d (rev tr) ->
+  let L := length (o_A H) in
+  (2 <= L)%nat /\ nrm = snd (orth psi) /\
+  dnorm2 d L A = k1 (Cx F) /\
+  denergy d L A (o_A H) = denergy d L (m_A (fst (orth psi))) (o_A H).
+Proof. exact tdvp2_run_lapack. Qed.
+Print Assumptions C08_tdvp2_conserves_lapack.
